@@ -321,7 +321,9 @@ type Layout struct {
 
 var commentTexts = []string{"", " note", " voilà", " \xa0", " x\x85", " tab\there", " // nested", ` "quote`, " <L x>", " S1F1 W .", " trailing   ", " \t ", "日本語", " \xff\xfe", " 100% \v", " a\fb", " é", " …", " Ω  ",
 	// a carriage return inside a comment does not end it (only the line feed does)
-	" was:\r2", " old\r\"CD\"", " cr\r<I2 7> ", " \r256", " x\r", " \r>"}
+	" was:\r2", " old\r\"CD\"", " cr\r<I2 7> ", " \r256", " x\r", " \r>",
+	// what other languages use for comments and quoting means nothing inside a line comment
+	" /* see below", " */", " /* both */", " end */ x", " <!--", " -->", " #", " \\", " (* ", " *)", " ''"}
 
 func (l *Layout) gap(first bool) string { return l.gapAfter(first, false) }
 
@@ -452,7 +454,9 @@ var smlNames = []string{"", "", "AreYouThere", "OnLineData", "ERN", "名前", "a
 	// letters whose UTF-8 encoding contains the bytes 0x85 or 0xA0 (white space as Latin-1 runes)
 	"Voilà", "Ångström", "状態", "выход",
 	// names that end in the character that ends a message
-	"Rev1.", "etc.", "x.", "Abort.."}
+	"Rev1.", "etc.", "x.", "Abort..",
+	// names that hold (but do not begin with) the characters that open and close an item
+	"Temp<100", "a<->b", "x<y>", "Alarm<", "p>q"}
 
 func genSMLMsg(r *rand.Rand, item *Node) *MsgDesc {
 	m := genMsgDesc(r, item, 0)
